@@ -54,6 +54,7 @@ func newTCPDriver(config *TCPv4, sink packets.Sink, source packets.Source) *tcpD
 	if !config.ParisTracerouteMode {
 		basePacketID = packets.AllocPacketID(config.MaxTTL)
 		seqNum = rand.Uint32()
+		seqNum = verifSeqNum(seqNum)
 	}
 
 	return &tcpDriver{
